@@ -44,6 +44,24 @@ func genGroup(c *cf.Case, r *cf.Rng, prop string) {
 		maxT, maxP = 3, 8
 	}
 	clusterBasic(c, r, 3, maxT, maxP)
+	// At most 8 partitions in total: sarama keeps one pointer-keyed map entry per partition consumer and
+	// broker; beyond 8 entries Go maps iterate in an order that depends on heap addresses, which are not
+	// a function of the case file (replay would not be exact).
+	total := 0
+	for ti := range c.Cluster.Topics {
+		t := &c.Cluster.Topics[ti]
+		if total+len(t.Partitions) > 8 {
+			t.Partitions = t.Partitions[:8-total]
+		}
+		total += len(t.Partitions)
+	}
+	var kept []cf.Topic
+	for _, t := range c.Cluster.Topics {
+		if len(t.Partitions) > 0 {
+			kept = append(kept, t)
+		}
+	}
+	c.Cluster.Topics = kept
 	c.Cluster.Coordinator = int32(r.Range(1, len(c.Cluster.Brokers)))
 	id := 0
 	var lastAppend int64
@@ -140,6 +158,14 @@ func genGroup(c *cf.Case, r *cf.Rng, prop string) {
 		case k < 11:
 			f.When = cf.When{AtUs: int64(r.Range(1000, int(end)))}
 			f.Do, f.Topic = "part-add", topics[r.Intn(len(topics))]
+			if total >= 8 {
+				f.Do = "part-del"
+			} else {
+				total++
+			}
+			if storm && r.Intn(3) == 0 {
+				f.Do = "part-del" // the topic was re-created with fewer partitions
+			}
 		case k < 12:
 			f.When = cf.When{AtUs: int64(r.Range(1000, int(end)))}
 			f.Do, f.Broker = "conn-reset", int32(r.Range(1, nb))
